@@ -19,7 +19,7 @@ ASSUMPTIONS = [
     "multipart.c (REGEX_NEXT/REGEX_END/REGEX_BOUNDARY)",
     "I/O is fault free in this model (seek/write always succeed; C12 covers faults); int wb truncation in dl_write "
     "needs a >= 2 GiB in-memory buffer and is out of scope",
-    "streaming theorems need non-empty fragments and no zero-length entries in the range index (D14, refuted example)",
+    "streaming theorems need non-empty fragments and no zero-length entries in the range index; zck_get_missing_range (after fix 1261c1f) never creates one, the refuted example documents what happened before",
     "harness builds the target zckCtx by hand (index_new_chunk, set_chunk_hash_type, temp file) and, for 'auto' cases, "
     "obtains the range from the real zck_get_missing_range",
 ]
@@ -92,14 +92,33 @@ class Case:
         return max([len(self.init)] + ends)
 
 
+_skip_zero = None
+
+
+def skips_zero_length():
+    """does zck_get_missing_range of the tree under test skip chunks with comp_length == 0 (fix 1261c1f)?
+    read from the source so that the expected range index follows the working tree"""
+    global _skip_zero
+    if _skip_zero is None:
+        src = open(os.path.join(vlib.REPO, "src", "lib", "dl", "range.c")).read()
+        src = re.sub(r"/\*.*?\*/", "", src, flags=re.S)
+        m = re.search(r"zck_get_missing_range\s*\(.*?\n\}", src, flags=re.S)
+        _skip_zero = bool(m and re.search(r"if\s*\(\s*chk->comp_length\s*==\s*0\s*\)\s*continue", m.group(0)))
+    return _skip_zero
+
+
 def auto_ridx(chunks, doff):
-    """the range index zck_get_missing_range builds (mirrors range_add: a chunk whose start equals the start of
-    an existing range item only extends that item and gets NO index entry - D13/D14)"""
+    """the range index zck_get_missing_range builds: missing chunks in order, zero-length chunks skipped (when the
+    tree has that fix).  Mirrors range_add otherwise: a chunk whose start equals the start of an existing range item
+    only extends that item and gets NO index entry (D13/D14 of the unfixed code)"""
     items, ridx, pos = [], [], 0
+    skipz = skips_zero_length()
     for i, (l, fl, _) in enumerate(chunks):
         start, end = pos + doff, pos + doff + l - 1
         pos += l
         if fl != 0:
+            continue
+        if l == 0 and skipz:
             continue
         hit = [it for it in items if it[0] == start]
         if hit:
@@ -338,20 +357,24 @@ def gen_cases(tier, rng):
     for parts in ("w", "k1", "k10", "k11"):
         c = Case("post-valid:%s" % parts, chunks, [0, 1, 2], body, parts, hdrs=hdrs, post={1: 1}, kind="postvalid")
         cases.append(c)
-    # ---- (G) zero-length chunks in the request (D14)
+    # ---- (G) zero-length chunks among the missing ones: nothing is requested for them (zck_get_missing_range skips
+    # them), the chunks with bytes are delivered, the zero-length chunk keeps its flag
     for nm, chunks in (("zero-first", [(0, 0, 51), (12, 0, 52), (9, 0, 53)]),
                        ("zero-mid", [(8, 0, 54), (0, 0, 55), (9, 0, 56)]),
-                       ("zero-after-valid", [(8, 1, 57), (0, 0, 58), (9, 0, 59)])):
+                       ("zero-after-valid", [(8, 1, 57), (0, 0, 58), (9, 0, 59)]),
+                       ("zero-last", [(8, 0, 60), (9, 0, 61), (0, 0, 62)]),
+                       ("zero-twice", [(0, 0, 63), (0, 0, 64), (7, 0, 65), (0, 2, 66), (5, 0, 67)])):
         ridx, _ = auto_ridx(chunks, 40)
         want = [i for i, ch in enumerate(chunks) if ch[1] == 0 and ch[0] > 0]
-        hdrs, body = response(chunks, want, 40, "plain")
-        for parts in ("w", "k1"):
-            c = Case("%s:%s" % (nm, parts), chunks, ridx, body, parts, hdrs=hdrs, opts=["auto"], kind="zero",
-                     group="zero:" + nm)
-            c.want = want
-            c.expect = {"verdict": True, "V": ",".join(
-                ("1E" if ch[0] == 0 else "1T") for ch in chunks)}
-            cases.append(c)
+        for mode in ("plain", "mp"):
+            hdrs, body = response(chunks, want, 40, mode)
+            for parts in ("w", "k1", "all1"):
+                c = Case("%s:%s:%s" % (nm, mode, parts), chunks, ridx, body, parts, hdrs=hdrs, opts=["auto"], kind="zero",
+                         group="zero:%s:%s" % (nm, mode))
+                c.want = want
+                c.expect = {"verdict": True, "V": ",".join(
+                    ("%dE" % (-1 if ch[1] == 2 else ch[1]) if ch[0] == 0 else "1T") for ch in chunks)}
+                cases.append(c)
     return cases
 
 
